@@ -133,7 +133,7 @@ def build(r, name, derives, n=None, styles=True, allow_default=True, allow_disab
                 continue
             if distinct_lengths and v.to_string is None and len(v.serialize) >= 2:
                 lens = [len(s.encode()) for s in v.serialize]
-                if lens.count(max(lens)) != 1:
+                if lens.count(max(lens)) != 1 or not model.unambiguous_longest(v.serialize):
                     continue
             taken.append(cl)
             if v.default and not v.disabled:
